@@ -32,6 +32,20 @@ def inspect_prog(prog):
     return insp, None, cfg
 
 
+def real_flow_kind(exc) -> Optional[str]:
+    """Classify what the run raised by the framework's own exception class and message (no reference involved)."""
+    name, msg = type(exc).__name__, str(exc)
+    if name == "KeyError" and ("Unable to resolve parameter" in msg or "not found in context" in msg):
+        return "unresolvable-parameter"
+    if name == "TypeError" and "Incompatible data type" in msg:
+        return "type-gate"
+    if name == "InvalidNodeParameterError":
+        return "unknown-parameter"
+    if name in ("PipelineConfigurationError", "UnknownProcessorError"):
+        return "construction"
+    return None
+
+
 def value_for(key: str):
     return gen.KEY_VALUES.get(key, [1.0, 2.0] if key.endswith("_values") else 0.0625)
 
@@ -113,16 +127,23 @@ def judge(prog, scratch, extras: int) -> Tuple[List[Tuple[str, str, dict]], dict
     for ci, ctx in enumerate(ctxs):
         ref = interp.run(prog, gen.ref_data(dkind), ctx)
         _PROG_FOR_REF[id(ref)] = prog
-        real = harness.run_pipeline(pipe, gen.make_data(dkind), ctx, scratch)
+        if ci == 0:
+            real, per_node, _outside = harness.run_observed(pipe, gen.make_data(dkind), ctx, scratch)
+        else:
+            real, per_node = harness.run_pipeline(pipe, gen.make_data(dkind), ctx, scratch), []
         info["runs"] += 1
         case = {"prog": list(prog), "ctx": ctx, "part": "soundness"}
         # (i) soundness: no flow failure
         if real.status != "ok":
             reason = ref.reason if (ref.status == real.status and ref.error == real.error and ref.index == real.index) else "unclassified"
             if reason in FLOW_REASONS or (reason == "unclassified" and real.error in ("KeyError", "TypeError", "InvalidNodeParameterError", "PipelineConfigurationError", "UnknownProcessorError")):
-                if reason == "unclassified" and ref.status == "ok":
-                    continue  # disagreement with the reference is C01's business
                 kind = {"unresolvable": "unresolvable-parameter", "type-gate": "type-gate", "construct": "construction"}.get(reason, reason)
+                if reason == "unclassified":
+                    # the run departs from the reference account (C01's business) — but if what it raised IS one of the flow
+                    # failures the property names (judged by the framework's own exception), the implication is broken all the same
+                    kind = real_flow_kind(real.exc)
+                    if kind is None:
+                        continue
                 first_fail = prog[real.index] if real.index is not None and real.index < len(prog) else "?"
                 out.append((f"accepted-config-fails-on-flow|{kind}",
                             f"inspection accepts {list(prog)} with required keys {R}; with context {sorted(ctx)} the run raises {real.error} at node {real.index} ({first_fail}): {real.exc!r}",
@@ -133,10 +154,14 @@ def judge(prog, scratch, extras: int) -> Tuple[List[Tuple[str, str, dict]], dict
         if ci != 0 or ref.status != "ok":
             _PROG_FOR_REF.pop(id(ref), None)
             continue
-        # (ii) per-node facts with context == R exactly
+        # (ii) per-node facts with context == R exactly, judged on what the REAL run did node by node (harness.run_observed:
+        # the caller's mapping records every assignment / removal between a node's entry and its return)
+        if len(per_node) != len(insp.nodes) or not all(pn["returned"] for pn in per_node):
+            _PROG_FOR_REF.pop(id(ref), None)
+            continue  # cannot happen for a run that returned; a disagreement with the reference is C01's business
         pre = dict(ctx)
         for i, n in enumerate(insp.nodes):
-            post = ref.states[i][1]
+            post = per_node[i]["post"]
             appeared = {k for k in post if k not in pre}
             changed = {k for k in post if k in pre and post[k] != pre[k]}
             gone = {k for k in pre if k not in post}
@@ -147,6 +172,9 @@ def judge(prog, scratch, extras: int) -> Tuple[List[Tuple[str, str, dict]], dict
                 out.append(("unreported-created-key", f"{where}: keys {sorted((appeared | changed) - rep_created)} appear/change but created_keys={sorted(rep_created)}", c2))
             if not rep_created <= set(post):
                 out.append((f"reported-created-key-absent|{gen.SYMBOLS[prog[i]]['kind']}", f"{where}: created_keys={sorted(rep_created)} but {sorted(rep_created - set(post))} not in the context afterwards", c2))
+            elif not rep_created <= per_node[i]["set"]:
+                out.append((f"reported-created-key-not-written|{gen.SYMBOLS[prog[i]]['kind']}",
+                            f"{where}: created_keys={sorted(rep_created)} but the node never assigned {sorted(rep_created - per_node[i]['set'])} (keys it assigned: {sorted(per_node[i]['set'])})", c2))
             if gone != rep_supp:
                 out.append(("wrong-suppressed-keys", f"{where}: keys {sorted(gone)} disappear but suppressed_keys={sorted(rep_supp)}", c2))
             # parameter origins
@@ -165,7 +193,7 @@ def judge(prog, scratch, extras: int) -> Tuple[List[Tuple[str, str, dict]], dict
                     out.append((f"wrong-parameter-origin|{channel}-reported-as-{rep}",
                                 f"{where}: parameter {name} comes from {channel} (value {value!r}) at run time; inspection says {rep}", c2))
                 elif channel == "context":
-                    want = last_writer(ref, i, name)
+                    want = next((j for j in range(i - 1, -1, -1) if name in per_node[j]["set"]), None)
                     got = n.context_params.get(name)
                     got0 = None if got is None else got - 1
                     if got0 != want:
@@ -201,6 +229,14 @@ def _worker(chunk):
     return st
 
 
+# two nodes that both publish the same key (different values), then a reader of it: the reader's origin is the LAST writer
+TWO_WRITERS = [
+    ("sweep_src", "sum", "sweep_op"), ("sweep_src", "sum", "sweep_op", "ren_tv_a"), ("sweep_src", "sum", "sweep_op", "sum", "ren_tv_a", "muldef"),
+    ("sweep_src", "sum", "sweep_probe", "ren_tv_a"), ("src", "sweep_two", "sum", "sweep_op", "ren_tv_a"),
+    ("src", "probe_r", "mul3", "probe_r", "ren_r_factor", "mul"), ("src", "ctxw", "mul3", "ctxw", "failif"), ("src", "probe_factor", "mul", "probe_factor", "mul"),
+]
+
+
 def program_set(tier: str):
     if tier == "quick":
         progs = gen.programs(ALPHA, [1, 2]) + gen.programs(PRIME[:14], [3])
@@ -212,6 +248,7 @@ def program_set(tier: str):
         for sp in gen.SPINES:
             progs += gen.edits(sp, PRIME, 1)
         extras = 2
+    progs += TWO_WRITERS
     progs = [p for p in sorted(set(progs)) if not any(s in gen.DELIBERATE for s in p)]
     return [(p, extras if len(p) <= 2 else 1) for p in progs]
 
